@@ -90,9 +90,18 @@ pub fn rule(r: &mut Rng, o: &RuleOpts) -> String {
     }
     if r.pct(20) {
         let mut d = vec![];
-        for _ in 0..1 + r.below(2) {
+        for _ in 0..1 + r.below(3) {
             let h = host(r);
             d.push(if r.pct(25) { format!("~{}", h) } else { h });
+        }
+        // the classic shape: a site with one of its subdomains carved out (or the reverse)
+        if r.pct(35) {
+            let base = d[0].trim_start_matches('~').to_string();
+            if d[0].starts_with('~') {
+                d.push(format!("sub.{}", base));
+            } else {
+                d.push(format!("~sub.{}", base));
+            }
         }
         opts.push(format!("domain={}", d.join("|")));
     }
@@ -136,10 +145,12 @@ pub fn url_from(r: &mut Rng, rules: &[String]) -> (String, String, String) {
     if let Some(i) = body.rfind('$') {
         body.truncate(i);
     }
-    let src_from_dom = base
-        .split("domain=")
-        .nth(1)
-        .map(|d| d.split(|c| c == '|' || c == ',').next().unwrap().trim_start_matches('~').to_string());
+    // the initiator is drawn from any entry of the rule's domain list, excluded entries included
+    let src_from_dom = base.split("domain=").nth(1).map(|d| {
+        let list = d.split(',').next().unwrap();
+        let entries: Vec<&str> = list.split('|').filter(|e| !e.is_empty()).collect();
+        if entries.is_empty() { String::new() } else { entries[r.below(entries.len())].trim_start_matches('~').to_string() }
+    });
     let mut u;
     if let Some(b) = body.strip_prefix("||") {
         let b = b.trim_end_matches('|');
